@@ -26,17 +26,35 @@ struct Case {
     resp_v10: bool,
     /// how the flow got to the head (drive::recv::Reader::new_route)
     route: usize,
+    /// 200, 404, or a redirect with a Location (only with a Content-Length: a redirect without framing has no body)
+    status: u16,
+    req_close: bool,
+    resp_close: bool,
 }
 
 fn run(case: &Case, st: &mut Stats) -> Result<(), String> {
+    let status = if case.n.is_none() && (300..400).contains(&case.status) { 200 } else { case.status };
+    let is_redirect = (300..400).contains(&status);
+    let decoration = format!(
+        "{}{}",
+        if is_redirect { "Location: /next\r\n" } else { "" },
+        if case.resp_close { "Connection: close\r\n" } else { "" }
+    );
     let head = match case.n {
-        Some(n) => format!("HTTP/1.{} 200 OK\r\nContent-Length: {}\r\nX-A: b\r\n\r\n", if case.resp_v10 { 0 } else { 1 }, n),
-        None => format!("HTTP/1.{} 200 OK\r\nX-A: b\r\n\r\n", if case.resp_v10 { 0 } else { 1 }),
+        Some(n) => format!("HTTP/1.{} {} OK\r\n{}Content-Length: {}\r\nX-A: b\r\n\r\n", if case.resp_v10 { 0 } else { 1 }, status, decoration, n),
+        None => format!("HTTP/1.{} {} OK\r\n{}X-A: b\r\n\r\n", if case.resp_v10 { 0 } else { 1 }, status, decoration),
     };
     // Content-Length: 0 has no body state on the Flow API (C06 owns that); the Call API still hands out a reader
     let api = if case.n == Some(0) { Api::Call } else { case.api };
-    let mut r = Reader::new_route(api, case.route, case.req_v10, head.as_bytes())?;
-    if case.route > 0 && api == Api::Flow {
+    // a 3xx head offered in two pieces may be cut after its Location line, where the known finding K1 (C05) applies: not split here
+    let route = if is_redirect && case.route == 4 {
+        st.excluded(1);
+        0
+    } else {
+        case.route
+    };
+    let mut r = Reader::new_route(api, route, case.req_v10, case.req_close, head.as_bytes())?;
+    if route > 0 && api == Api::Flow {
         st.class("body_reached_after_interim_100_or_split_head");
     }
     // the stream: body bytes (as many as we are willing to materialise) followed by a next response
@@ -147,8 +165,10 @@ fn run(case: &Case, st: &mut Stats) -> Result<(), String> {
                     return Err(format!("proceed() succeeded with {:?} bytes remaining", left));
                 }
                 let c = match res {
-                    RecvBodyResult::Cleanup(c) => c,
-                    RecvBodyResult::Redirect(_) => return Err("200 response went to Redirect".into()),
+                    RecvBodyResult::Cleanup(c) if !is_redirect => c,
+                    RecvBodyResult::Redirect(r) if is_redirect => r.proceed(),
+                    RecvBodyResult::Cleanup(_) => return Err(format!("{} response with a Location went to Cleanup", status)),
+                    RecvBodyResult::Redirect(_) => return Err(format!("{} response went to Redirect", status)),
                 };
                 if case.n.is_none() && !c.must_close_connection() {
                     return Err("close-delimited body but the connection is not marked must-close".into());
@@ -173,7 +193,7 @@ fn run(case: &Case, st: &mut Stats) -> Result<(), String> {
             st.sample(json!({"api": format!("{:?}", case.api), "content_length": case.n, "steps_arrival_out": case.steps}));
         }
     }
-    st.describe(|| json!({"api": format!("{:?}", case.api), "content_length": case.n, "route_to_the_head": case.route, "req_http10": case.req_v10, "resp_http10": case.resp_v10, "steps_arrival_out": case.steps}));
+    st.describe(|| json!({"api": format!("{:?}", case.api), "content_length": case.n, "route_to_the_head": case.route, "status": case.status, "request_connection_close": case.req_close, "response_connection_close": case.resp_close, "req_http10": case.req_v10, "resp_http10": case.resp_v10, "steps_arrival_out": case.steps}));
     Ok(())
 }
 
@@ -225,8 +245,15 @@ fn exec_random(t: &mut Tape, st: &mut Stats) -> Result<(), String> {
     // the flow may have got to the head on another route: a late 100 in the same window as the head or before it, a 100 seen
     // while awaiting it, the head in two pieces
     let route = if t.chance(30) { t.range(1, 4) } else { 0 };
+    // other statuses (a redirect body must be delivered like any other) and close conditions on either side
+    let status = if t.chance(30) { *t.pick(&[404u16, 301, 302, 303, 307, 308, 300, 399]) } else { 200 };
+    let req_close = t.chance(15);
+    let resp_close = t.chance(15);
     st.case_digest = t.digest();
-    run(&Case { api, n, steps, req_v10, resp_v10, route }, st)
+    if (300..400).contains(&status) && n.is_some() && (req_close || resp_close || req_v10) {
+        st.class("redirect_body_on_a_closing_connection");
+    }
+    run(&Case { api, n, steps, req_v10, resp_v10, route, status, req_close, resp_close }, st)
 }
 
 /// Small-scope exhaustive: N in 0..=4 and close-delimited x all 3-step schedules over (arrival 0..3+, out 0..3).
@@ -248,7 +275,7 @@ fn exec_small(t: &mut Tape, st: &mut Stats) -> Result<(), String> {
     steps.push((0, 64));
     let steps_sum: usize = steps.iter().map(|s| s.0 + s.1).sum();
     st.case_digest = t.digest();
-    run(&Case { api, n, steps, req_v10: false, resp_v10: false, route: (n.unwrap_or(5) as usize + steps_sum) % 5 }, st)
+    run(&Case { api, n, steps, req_v10: false, resp_v10: false, route: (n.unwrap_or(5) as usize + steps_sum) % 5, status: [200u16, 302, 404, 307][steps_sum % 4], req_close: steps_sum % 3 == 1, resp_close: steps_sum % 7 < 2 }, st)
 }
 
 pub static DEF: PropDef = PropDef {
@@ -256,7 +283,7 @@ pub static DEF: PropDef = PropDef {
     rule: "random: Content-Length N in {0..40, 41..3000, around 255/256/4096/10240/65535/65536/70000, 2^32+5, 2^63, u64::MAX} or no \
 framing (close-delimited) x histories of 1..30 reads (arrival increment, output size) with increments {0..8, exactly to the body \
 end, past the body end into a following response, random, 0} and buffers {1..7, large, random, 0, remaining-0..2}, on \
-Flow<RecvBody> and Call<RecvBody>, request/response versions 1.0/1.1; 30 % of the flows reach the head on another route (late 100 Continue in the same window as the head or in a call of its own, 100 seen while awaiting it, head in two pieces) and the reported counts must add up to the bytes that precede the body. Reference: every read returns (k,k), k = min(window, space, \
+Flow<RecvBody> and Call<RecvBody>, request/response versions 1.0/1.1; 30 % of the flows reach the head on another route (late 100 Continue in the same window as the head or in a call of its own, 100 seen while awaiting it, head in two pieces) and the reported counts must add up to the bytes that precede the body. 30 % carry another status (404, 3xx with Location: a redirect body is delivered like any other), 15 % each a Connection: close on the request / the response. Reference: every read returns (k,k), k = min(window, space, \
 remaining) [no remaining term when close-delimited], bytes equal; never more than N consumed; ended/can_proceed <=> N delivered; \
 close-delimited: can_proceed always, never ended, Cleanup verdict must-close with a reason. enumeration 'small': N in 0..=4 and \
 close-delimited x all 3-read schedules over 5 increments x 4 buffer sizes x both APIs. non-trivial = history with >= 3 reads whose \
